@@ -70,6 +70,11 @@ type Options struct {
 	Resume bool
 	PsDir  string
 	Pid    int
+	// Torn: what the crashing write leaves behind: 0 nothing (default),
+	// 1 an empty file, 2 the first half of the data.
+	Torn int
+	// MrpPid is what os.Getpid returns inside package core (uniquifiers).
+	MrpPid int
 }
 
 // ObsJob is what one executed job observed.
@@ -86,6 +91,7 @@ type ObsJob struct {
 	SubmitSeq int          `json:"submit_seq"`
 	Attempt   int          `json:"attempt"`
 	Finished  bool         `json:"finished"`
+	Recorded  bool         `json:"recorded"` // the completion marker was written in full
 	How       string       `json:"how"`
 	MdPath    string       `json:"-"`
 }
@@ -213,6 +219,7 @@ func Run(p *progen.Program, sched Schedule, opts Options) (res *Result) {
 		return true
 	}
 	crashed := false
+	tornArmed := false
 	vshim.FsHook = func(site, op, path string) bool {
 		if crashed {
 			return false
@@ -223,12 +230,29 @@ func Run(p *progen.Program, sched Schedule, opts Options) (res *Result) {
 		}
 		if opts.CrashAt > 0 && res.Effects >= opts.CrashAt {
 			crashed = true
+			tornArmed = op == "write"
 			return false
 		}
 		return true
 	}
+	vshim.TornHook = func() int {
+		if !tornArmed {
+			return -1
+		}
+		tornArmed = false // only the write the process died in is torn
+		switch opts.Torn {
+		case 1:
+			return 0
+		case 2:
+			return -2
+		}
+		return -1
+	}
+	if opts.MrpPid != 0 {
+		vshim.PidHook = func() int { return opts.MrpPid }
+	}
 	defer func() {
-		vshim.KeysHook, vshim.GoHook, vshim.FsHook = nil, nil, nil
+		vshim.KeysHook, vshim.GoHook, vshim.FsHook, vshim.TornHook, vshim.PidHook = nil, nil, nil, nil, nil
 		res.Crashed = crashed
 		res.Unordered = map[string]int{}
 		for k, v := range vshim.UnorderedSites {
@@ -336,7 +360,7 @@ func Run(p *progen.Program, sched Schedule, opts Options) (res *Result) {
 		}
 		how, msg := applyBody(p, h, j, io, fault)
 		h.JobBodyDone(j, fault)
-		h.JobFinish(j, how, msg)
+		o.Recorded = h.JobFinish(j, how, msg)
 		o.Finished, o.How = true, how
 	}
 
@@ -525,6 +549,13 @@ func applyBody(p *progen.Program, h *core.VerifHarness, j *core.VerifJob,
 	b := []byte(full.JSON())
 	keys := full.Keys()
 	sort.Strings(keys)
+	// the key a missing-key / wrong-type fault hits: an output this job is
+	// responsible for (a chunk out for chunks of a split stage)
+	if st := io.Stage; st.Split && j.Phase == "main" && len(st.ChunkOuts) > 0 {
+		keys = []string{st.ChunkOuts[0].Name}
+	} else if len(st.Outs) > 0 {
+		keys = []string{st.Outs[0].Name}
+	}
 	switch fault {
 	case "no-outs":
 		// stage exits 0 without touching _outs: the template stays
